@@ -44,8 +44,13 @@ type c14Callable struct {
 	params string // S = string, I = int; trailing V = variadic ints
 }
 
+// c14Name is a defined string type: a string argument has the same kind but must still be converted
+type c14Name string
+
 var c14Callables = []c14Callable{
+	// (indices are part of saved cases: append only)
 	{"f1", "S"}, {"f2", "SI"}, {"f3", "SSS"}, {"fv", "SV"}, {"g2", "IS"}, {"jf", "SSI"}, {"obj.Join", "SS"}, {"pobj.PJoin", "SI"}, {"f2", "SI"}, {"f3", "SSS"},
+	{"fd", "SI"}, {"fd1", "S"},
 }
 
 type c14Methods struct {
@@ -70,6 +75,8 @@ func c14Vars(log *[]string, jfName string) jet.VarMap {
 		return r.note("fv", args...)
 	})
 	vars.Set("g2", func(n int, s string) string { return r.note("g2", n, s) })
+	vars.Set("fd", func(a c14Name, b int) string { return r.note("fd", string(a), b) })
+	vars.Set("fd1", func(a c14Name) string { return r.note("fd1", string(a)) })
 	// jet.Func and a reflected variadic twin must see the same argument list
 	vars.SetFunc("jf", func(a jet.Arguments) reflect.Value {
 		var args []interface{}
@@ -290,6 +297,10 @@ func (c c14Case) apply() (string, []string) {
 			cur = r.note("fv", args...)
 		case "g2":
 			cur = r.note("g2", args...)
+		case "fd":
+			cur = r.note("fd", args...)
+		case "fd1":
+			cur = r.note("fd1", args...)
 		case "obj.Join":
 			cur = m.Join(args[0].(string), args[1].(string))
 		case "pobj.PJoin":
